@@ -26,7 +26,8 @@ LEVEL_TEXT = ('Every built-in reward and termination component, built through th
               'sum / any / all of their separately evaluated parts; inside GridWorld.functional_step spies assert that reward '
               'and termination receive exactly (input state, action, returned next state) and that their values are the ones '
               'returned; on every step of every shipped config the reach_exit reward part fires iff the reach_exit termination '
-              'part fires iff the next cell is an Exit, and the total reward equals the reference of the configured list.')
+              'part fires iff the next cell is an Exit, and the total reward equals the reference of the configured list.'
+              ' Also: serpentine mazes (paths longer than the perimeter, cut-off parts), doors changing status elsewhere than in front, composites with a failing part (must raise), far-distance shaping, aliased triples.')
 LEVEL_NOTE = ('Trusted: refmodel.ref_reward/ref_terminating. Triples are restricted to the documented domain (agent inside '
               'the grid on a non-blocking cell, unique object for distance rewards, beacons of one colour, same grid shape).')
 SHARDS = {'quick': 4, 'thorough': 16}
